@@ -352,7 +352,7 @@ func classifyC05(ch *Chaos, diffs []viewDiff, statesAtStop map[string]map[string
 		// final components at T_stop was a SUSPECT entry, held by a node that the other
 		// endpoint had itself already declared dead (or reaped). The holder's accusation is
 		// refuted, but the refutation is gossiped only to nodes the refuter still lists.
-		bridges, suspectOnly, inflight, staleSusp := 0, true, 0, 0
+		bridges, suspectOnly, inflight, staleSusp, unheard := 0, true, 0, 0, 0
 		cf := live[0].Node.Conf
 		probeWindow := time.Duration(cf.AwarenessMaxMultiplier) * cf.ProbeInterval
 		for _, x := range live {
@@ -412,10 +412,30 @@ func classifyC05(ch *Chaos, diffs []viewDiff, statesAtStop map[string]map[string
 						continue
 					}
 				}
+				if st == "suspect" && !yDropped {
+					// Fourth registered history: the accused y still listed the accuser x at T_stop but never got
+					// to hear the accusation before x's timer ran out (its datagram copies were lost under the
+					// faults; probes rescued over TCP carry no accusation). x's dead message then names an
+					// incarnation below y's current one (y refuted an earlier accusation) and y ignores it
+					// without re-announcing itself. Matched only if x itself logged the expiry after T_stop.
+					expired := false
+					for _, ln := range x.Node.Log.Grep(0, "Marking "+y.Name+" as failed, suspect timeout reached") {
+						if ln.At.After(stopAt) {
+							expired = true
+						}
+					}
+					if expired {
+						unheard++
+						continue
+					}
+				}
 				if st != "suspect" || !yDropped {
 					suspectOnly = false
 				}
 			}
+		}
+		if bridges > 0 && suspectOnly && unheard > 0 {
+			return "bridge-suspicion-never-heard"
 		}
 		if bridges > 0 && suspectOnly && inflight == 0 && staleSusp == 0 {
 			return "bridge-only-suspect"
